@@ -263,12 +263,12 @@ pub struct StudentC {
 }
 impl<T: Float, B: AutodiffBackend> BatchedGradientTarget<T, B> for StudentC {
     fn unnorm_logp_batch(&self, p: Tensor<B, 2>) -> Tensor<B, 1> {
-        (p.clone() * p).div_scalar(self.nu).add_scalar(1.0).log().mul_scalar(-(self.nu + 1.0) / 2.0).sum_dim(1).squeeze::<1>(1).add_scalar(self.c)
+        (p.clone() * p).mul_scalar(1.0 / self.nu).add_scalar(1.0).log().mul_scalar(-(self.nu + 1.0) / 2.0).sum_dim(1).squeeze::<1>(1).add_scalar(self.c)
     }
 }
 impl<T: Float, B: AutodiffBackend> BatchedGradientTarget<T, B> for StudentT {
     fn unnorm_logp_batch(&self, p: Tensor<B, 2>) -> Tensor<B, 1> {
-        (p.clone() * p).div_scalar(self.nu).add_scalar(1.0).log().mul_scalar(-(self.nu + 1.0) / 2.0).sum_dim(1).squeeze(1)
+        (p.clone() * p).mul_scalar(1.0 / self.nu).add_scalar(1.0).log().mul_scalar(-(self.nu + 1.0) / 2.0).sum_dim(1).squeeze(1)
     }
 }
 /// The uniform density on the open box (0,1)^d written the obvious way: a constant, masked outside.  The result does
@@ -443,29 +443,28 @@ pub fn record(args: &[String]) {
             let c32 = [[cov[0][0] as f32, cov[0][1] as f32], [cov[1][0] as f32, cov[1][1] as f32]];
             let own32 = Own::Gauss2 { mean: [mean[0] as f32 as f64, mean[1] as f32 as f64], cov: [[c32[0][0] as f64, c32[0][1] as f64], [c32[1][0] as f64, c32[1][1] as f64]] };
             record_run::<B32, f32, _>(&mut out, "gauss2/f32", own32.clone(), DiffableGaussian2D::<f32>::new([mean[0] as f32, mean[1] as f32], c32), init.clone(), eps, l, steps, seed + c as u64, 2e-4, &mut moved);
-            record_run::<B64, f64, _>(&mut out, "gauss2/f64", Own::Gauss2 { mean, cov }, DiffableGaussian2D::<f64>::new(mean, cov), init.clone(), eps, l, steps, seed + c as u64, 2e-4, &mut moved);
+            record_run::<B64, f64, _>(&mut out, "gauss2/f64", Own::Gauss2 { mean, cov }, DiffableGaussian2D::<f64>::new(mean, cov), init.clone(), eps, l, steps, seed + c as u64, 1e-12, &mut moved);
             let ri: Vec<Vec<f64>> = (0..n).map(|_| vec![rnd(-1.0, 1.0), rnd(-1.0, 1.0)]).collect();
-            record_run::<B64, f64, _>(&mut out, "rosen2/f64", Own::Rosen2 { a: 1.0, b: 5.0 }, Rosenbrock2D::<f64> { a: 1.0, b: 5.0 }, ri.clone(), eps * 0.1, l.min(17), steps, seed + 100 + c as u64, 1e-7, &mut moved);
+            record_run::<B64, f64, _>(&mut out, "rosen2/f64", Own::Rosen2 { a: 1.0, b: 5.0 }, Rosenbrock2D::<f64> { a: 1.0, b: 5.0 }, ri.clone(), eps * 0.1, l.min(17), steps, seed + 100 + c as u64, 1e-12, &mut moved);
             record_run::<B32, f32, _>(&mut out, "rosen2/f32", Own::Rosen2 { a: 1.0, b: 5.0 }, Rosenbrock2D::<f32> { a: 1.0, b: 5.0 }, ri, eps * 0.1, l.min(17), steps, seed + 100 + c as u64, 3e-4, &mut moved);
             let d = [3usize, 7, 16][c % 3];
             let ni: Vec<Vec<f64>> = (0..n).map(|_| (0..d).map(|_| rnd(-0.5, 1.0)).collect()).collect();
-            record_run::<B64, f64, _>(&mut out, "rosenN/f64", Own::RosenN, RosenbrockND {}, ni, eps * 0.01, l.min(17), steps, seed + 200 + c as u64, 1e-7, &mut moved);
+            record_run::<B64, f64, _>(&mut out, "rosenN/f64", Own::RosenN, RosenbrockND {}, ni, eps * 0.01, l.min(17), steps, seed + 200 + c as u64, 1e-12, &mut moved);
             let si: Vec<Vec<f64>> = (0..n).map(|_| (0..d).map(|_| rnd(-3.0, 3.0)).collect()).collect();
-            record_run::<B64, f64, _>(&mut out, "student/f64", Own::Student { nu: 3.0 }, StudentT { nu: 3.0 }, si.clone(), eps, l, steps, seed + 300 + c as u64, 1e-7, &mut moved);
+            record_run::<B64, f64, _>(&mut out, "student/f64", Own::Student { nu: 3.0 }, StudentT { nu: 3.0 }, si.clone(), eps, l, steps, seed + 300 + c as u64, 1e-12, &mut moved);
             record_run::<B32, f32, _>(&mut out, "student/f32", Own::Student { nu: 3.0 }, StudentT { nu: 3.0 }, si.clone(), eps, l, steps, seed + 300 + c as u64, 3e-4, &mut moved);
             // scalar type and backend precision differ
             // f64 backend, log-density shifted by -2.5e8 (and +3e9): |H| is huge, H - H' is not (the accept test needs the
-            // difference of the two energies in f64).  Tolerance as for student/f64: burn-autodiff's div_scalar backward
-            // multiplies by an f32 reciprocal, the gradient of this harness target is only good to 3e-8
-            record_run::<B64, f64, _>(&mut out, "student-2.5e8/f64", Own::StudentC { nu: 3.0, c: -2.5e8 }, StudentC { nu: 3.0, c: -2.5e8 }, si.clone(), eps, l, steps, seed + 303 + c as u64, 1e-7, &mut moved);
-            record_run::<B64, f64, _>(&mut out, "student+3e9/f64", Own::StudentC { nu: 3.0, c: 3e9 }, StudentC { nu: 3.0, c: 3e9 }, si.clone(), eps, l, steps, seed + 304 + c as u64, 1e-7, &mut moved);
+            // difference of the two energies in f64)
+            record_run::<B64, f64, _>(&mut out, "student-2.5e8/f64", Own::StudentC { nu: 3.0, c: -2.5e8 }, StudentC { nu: 3.0, c: -2.5e8 }, si.clone(), eps, l, steps, seed + 303 + c as u64, 1e-12, &mut moved);
+            record_run::<B64, f64, _>(&mut out, "student+3e9/f64", Own::StudentC { nu: 3.0, c: 3e9 }, StudentC { nu: 3.0, c: 3e9 }, si.clone(), eps, l, steps, seed + 304 + c as u64, 1e-12, &mut moved);
             record_run::<B64, f32, _>(&mut out, "student/f32-on-f64", Own::Student { nu: 3.0 }, StudentT { nu: 3.0 }, si.clone(), eps, l, steps, seed + 301 + c as u64, 3e-4, &mut moved);
             record_run::<B32, f64, _>(&mut out, "student/f64-on-f32", Own::Student { nu: 3.0 }, StudentT { nu: 3.0 }, si, eps, l, steps, seed + 302 + c as u64, 3e-4, &mut moved);
         }
         // bounded support / NaN region / overflowing step sizes (C14)
         let hi: Vec<Vec<f64>> = (0..n).map(|_| vec![rnd(0.2, 3.0), rnd(0.2, 3.0)]).collect();
         for e2 in [0.3, 2.5, 1e3, 1e30, 1e300] {
-            record_run::<B64, f64, _>(&mut out, "halfline/f64", Own::HalfLine, HalfLine, hi.clone(), e2, l.clamp(1, 9), steps, seed + 400 + c as u64, 1e-7, &mut moved);
+            record_run::<B64, f64, _>(&mut out, "halfline/f64", Own::HalfLine, HalfLine, hi.clone(), e2, l.clamp(1, 9), steps, seed + 400 + c as u64, 1e-12, &mut moved);
             if e2 < 1e38 {
                 record_run::<B32, f32, _>(&mut out, "halfline/f32", Own::HalfLine, HalfLine, hi.clone(), e2, l.clamp(1, 9), steps, seed + 400 + c as u64, 3e-4, &mut moved);
             }
